@@ -44,11 +44,21 @@ structure Ts where
   nanos : Int
 deriving DecidableEq, Repr, Inhabited
 
-/-- the order of two client timestamps: seconds, then nanoseconds, compared as they are (`older` in
-    modules/vikja/state.go; before the repair F43 the code compared `time.Time` values, which wrap for seconds near the
-    top of the int64 range) -/
+/-- the instant a client timestamp names: seconds + nanos / 1e9 with the nanoseconds brought into [0, 1e9), whatever the
+    nanos field holds (an int32; nothing refuses a timestamp that is not normalised); the seconds saturate at the ends of
+    the int64 range instead of wrapping (`instant` in modules/vikja/state.go) -/
+def Ts.instant (t : Ts) : Int × Int :=
+  let q := t.nanos / 1000000000
+  let s := if 0 < q ∧ t.secs > 9223372036854775807 - q then 9223372036854775807
+           else if q < 0 ∧ t.secs < -9223372036854775808 - q then -9223372036854775808
+           else t.secs + q
+  (s, t.nanos % 1000000000)
+
+/-- the order of two client timestamps: that of their instants (`older` in modules/vikja/state.go; before the repair F43
+    the code compared `time.Time` values, which wrap for seconds near the top of the int64 range; between F43 and its
+    correction it compared the fields as they are, which is another order when a nanos field is not normalised) -/
 def Ts.before (a b : Ts) : Bool :=
-  a.secs < b.secs || (a.secs == b.secs && a.nanos < b.nanos)
+  a.instant.1 < b.instant.1 || (a.instant.1 == b.instant.1 && a.instant.2 < b.instant.2)
 
 structure Action where
   eid : Nat
